@@ -262,12 +262,12 @@ func (w *c10World) chainProblem() string {
 // histories
 
 type c10Op struct {
-	kind byte  // 'd' defmethod, 'r' remove-method, 'c' call, 'm' compute-applicable-methods
-	qual byte  // p b a r
-	key  []int // specializer class ids (d, r) or argument class ids (c)
-	id   int
-	mode byte // g d s (around bodies)
-	bare bool // t specializers written as bare parameter symbols
+	kind  byte  // 'd' defmethod, 'r' remove-method, 'c' call, 'm' compute-applicable-methods
+	qual  byte  // p b a r
+	key   []int // specializer class ids (d, r) or argument class ids (c)
+	id    int
+	mode  byte // g d s (around bodies)
+	bare  bool // t specializers written as bare parameter symbols
 	viaGo bool // defined through generic.DefCallerMethod
 }
 
@@ -2558,7 +2558,7 @@ func (w *c10World) dynFacet(c *lib.Ctx, random int) {
 			min, bad2 = l, bad
 		}
 		c.Report(sig, i < len(sweep), map[string]any{"family": "redefinition", "dyn": min, "original": l, "observed_vs_expected": bad2,
-			"classes": fmt.Sprintf("0=t %d=standard-object %d=c10p1 %d=c10p2 %d=c10m %d=c10l", w.classID["standard-object"], w.classID["c10p1"], w.classID["c10p2"], w.classID["c10m"], w.classID["c10l"]),
+			"classes":       fmt.Sprintf("0=t %d=standard-object %d=c10p1 %d=c10p2 %d=c10m %d=c10l", w.classID["standard-object"], w.classID["c10p1"], w.classID["c10p2"], w.classID["c10m"], w.classID["c10l"]),
 			"expected_from": "model:disp.run", "relies_on": []string{"SlipVerif.Dispatch.dispatch_history_independent", "SlipVerif.Dispatch.class_redefinition_coherent"},
 			"legend": "k:<class>:<supers> defclass (again); n:<slot>:<class> make-instance into the slot; c:/m: call / compute-applicable-methods with the objects in the slots"})
 	}
@@ -2701,8 +2701,13 @@ func (w *c10World) report(c *lib.Ctx, seen map[string]bool, family string, sweep
 		"expected":      mw2,
 		"expected_from": "model:disp.run",
 		"original":      m.line,
-		"relies_on":     []string{"SlipVerif.Dispatch.dispatch_history_independent", "SlipVerif.Dispatch.history_outcomes_eq_spec"},
-		"legend":        "m<id> body ran; e<id>+/- :around body entered with next-method-p true/false; l<id> :around body left; =<id> value; !na no-applicable-method; !error other condition",
+		"relies_on": func() []string {
+			if min.ops[midx].kind == 'm' {
+				return []string{"SlipVerif.Dispatch.methods_history_independent", "SlipVerif.Dispatch.compMethList_eq_spec"}
+			}
+			return []string{"SlipVerif.Dispatch.dispatch_history_independent", "SlipVerif.Dispatch.history_outcomes_eq_spec"}
+		}(),
+		"legend": "m<id> body ran; e<id>+/- :around body entered with next-method-p true/false; l<id> :around body left; =<id> value; !na no-applicable-method; !error other condition; M<q><id>,… the list of compute-applicable-methods (q: r around, b before, p primary, a after)",
 	})
 }
 
